@@ -49,6 +49,7 @@ def features():
         'peripherals': {n: (lambda m, n=n: pm.set_peripheral_compartments(m, n)) for n in (0, 1, 2)},
         'transits': {n: (lambda m, n=n: pm.set_transit_compartments(m, n)) for n in (0, 1, 3)},
         'lagtime': {'ON': pm.add_lag_time, 'OFF': pm.remove_lag_time},
+        'bioavailability': {'ON': pm.add_bioavailability, 'OFF': pm.remove_bioavailability},
     }
 
 
@@ -61,15 +62,18 @@ def detect(m):
           if f(m)]
     return dict(absorption=ab, elimination=el, peripherals=pm.get_number_of_peripheral_compartments(m),
                 transits=pm.get_number_of_transit_compartments(m),
-                lagtime='ON' if len(pm.get_lag_times(m)) else 'OFF')
+                lagtime='ON' if len(pm.get_lag_times(m)) else 'OFF',
+                bioavailability='ON' if len(pm.get_bioavailability(m)) else 'OFF')
 
 
 # categories whose detectors must be unchanged by a request in the key category
 INDEPENDENT = {
-    'absorption': ['elimination', 'peripherals'], 'transits': ['elimination', 'peripherals'],
-    'lagtime': ['elimination', 'peripherals', 'absorption', 'transits'],
-    'elimination': ['absorption', 'peripherals', 'transits', 'lagtime'],
-    'peripherals': ['absorption', 'elimination', 'transits', 'lagtime'],
+    # an absorption change keeps the dose's bioavailability (the setters move lag time and bioavailability with the dose)
+    'absorption': ['elimination', 'peripherals', 'bioavailability'], 'transits': ['elimination', 'peripherals', 'bioavailability'],
+    'lagtime': ['elimination', 'peripherals', 'absorption', 'transits', 'bioavailability'],
+    'bioavailability': ['elimination', 'peripherals', 'absorption', 'transits', 'lagtime'],
+    'elimination': ['absorption', 'peripherals', 'transits', 'lagtime', 'bioavailability'],
+    'peripherals': ['absorption', 'elimination', 'transits', 'lagtime', 'bioavailability'],
 }
 
 
@@ -91,6 +95,8 @@ def detected_ok(cat, val, got):
 
 
 FAMILY = ('absorption', 'transits', 'lagtime')
+# a 'rich' start has the optional dose attributes switched on before the request sequence starts
+RICH = (('lagtime', 'ON'), ('bioavailability', 'ON'))
 
 
 def apply_seq(m, seq):
@@ -136,7 +142,9 @@ def run_case(case):
     def rec(ob, verdict, **d):
         res.append((ob, verdict, d or None))
     try:
-        m0 = corpus.load(os.path.join(corpus.TESTDATA, start))
+        m0 = corpus.load(os.path.join(corpus.TESTDATA, start.replace('+rich', '')))
+        if start.endswith('+rich'):
+            m0 = apply_seq(m0, RICH)
     except Exception as e:  # noqa
         out['status'] = f'start-unreadable: {type(e).__name__}'
         return out
@@ -263,11 +271,13 @@ def main():
             for seq in itertools.product(alpha, repeat=L):
                 cases.append((s, seq))
     if thorough:
+        cases += [(s0 + '+rich', seq) for s0 in START for L in (1, 2) for seq in itertools.product(alpha, repeat=L)]
         l3 = [(START[0], seq) for seq in itertools.product(alpha, repeat=3)]
         random.Random(run.seed).shuffle(l3)
         cases += l3
     else:
-        l1 = [c for c in cases if len(c[1]) == 1] + [(START[2], (a,)) for a in alpha]
+        l1 = [c for c in cases if len(c[1]) == 1] + [(START[2], (a,)) for a in alpha] + \
+            [(s0 + '+rich', (a,)) for s0 in START[1:] for a in alpha]
         l2 = [c for c in cases if len(c[1]) == 2]
         random.Random(run.seed).shuffle(l2)
         cases = l1 + l2
@@ -309,7 +319,12 @@ def main():
     reported = set()
     for case, ob, detail in viol:
         seqs = ','.join(f'{c}={v}' for c, v in case[1])
-        key = f'{case[0]} :: {seqs} :: {ob} :: {(detail or {}).get("error", "")}'
+        extra = (detail or {}).get('error', '')
+        if ob == 'other_categories':
+            extra = 'changed=' + ','.join(sorted((detail or {}).get('changed', {})))
+        elif ob in ('reversible', 'idempotent') and not extra:
+            extra = 'first=' + str((detail or {}).get('first', ''))
+        key = f'{case[0]} :: {seqs} :: {ob} :: {extra}'
         e = run.match_known(key)
         if e is not None:
             if e['id'] not in [k for k, _ in run.known_hits]:
@@ -331,7 +346,7 @@ def main():
     run.bounds = dict(start_models=starts, alphabet=[f'{c}={v}' for c, v in alpha],
                       sequences='all of length 1; length 2 (quick: seeded order within budget; thorough: complete + '
                                 'length 3 from the first start model in seeded order)',
-                      outside='metabolite/effect/TMDD compartments, bioavailability, the MFL text parser (C18)')
+                      outside='metabolite/effect/TMDD compartments, the MFL text parser (C18)')
     run.assumptions = ['the detector / other-category clause is a finite concrete comparison, not a solver verdict',
                        'independent categories: elimination and peripherals vs the absorption family (absorption, '
                        'transits, lag time), whose members legitimately interact',
